@@ -47,6 +47,8 @@ func init() {
 		oStatusConflict
 		oBase8
 		oWildSlots
+		oStalePods
+		oDeleteGone
 	)
 	const (
 		mC03 = 1 << iota
@@ -99,6 +101,9 @@ func init() {
 			step("step", []int{3, 2, 1, oPolicyOrdered, mC05}, []int{4, 2, 1, oPolicyOrdered, mC05},
 				[]string{"at most one ordinal is created or deleted per reconcile"},
 				[]string{"ordered create", "ordered scale-in delete", "ordered update delete"}),
+			step("step-stale-cache", []int{2, 2, 1, oPolicyOrdered | oLeanPods | oStalePods, mC05}, []int{3, 2, 1, oPolicyOrdered | oStalePods, mC05},
+				[]string{"create only when every lower desired pod exists"},
+				[]string{"a pod exists on the server but not in the cache"}),
 			step("step-wide-ordinals", []int{2, 1, 1, oPolicyOrdered | oBase8 | oLeanPods, mC05}, []int{2, 1, 2, oPolicyOrdered | oBase8, mC05},
 				[]string{"scale-in removes the highest-ordinal pod outside the desired set"},
 				[]string{"ordered scale-in delete"}),
@@ -111,6 +116,8 @@ func init() {
 			step("step", []int{2, 2, 1, oThreeRevs, mC07}, []int{2, 3, 2, oThreeRevs, mC07},
 				[]string{"at most one pod is deleted for update per reconcile", "no update delete below the partition"},
 				[]string{"update delete seen", "create with a partition"}),
+			step("step-deleted-pod-already-gone", []int{2, 2, 1, oLeanPods | oThreeRevs | oDeleteGone, mC07 | mC03}, []int{3, 2, 1, oLeanPods | oThreeRevs | oDeleteGone, mC07 | mC03},
+				[]string{"at most one pod is deleted for update per reconcile"}, []string{"fault injected at pod.delete"}),
 			step("step-three-healthy-pods", []int{3, 1, 1, oLeanPods | oThreeRevs, mC07}, []int{3, 2, 1, oLeanPods | oThreeRevs, mC07},
 				[]string{"update delete only when every higher desired pod is updated and healthy"}, []string{"update delete seen"}),
 		},
@@ -150,6 +157,7 @@ func init() {
 		yUndefaulted
 		yHealthDims
 		yOrphanRevs
+		yStatusConflict
 	)
 	const (
 		nC10 = 1 << iota
@@ -168,6 +176,9 @@ func init() {
 			syncRun("pods", []int{1, 1, 0, yOwnerDims | yStaleCache | yDeleting, nC10}, []int{2, 2, 0, yOwnerDims | yStaleCache | yDeleting, nC10},
 				[]string{"only unowned pods are adopted", "adoption only after an uncached read confirmed the set", "only pods controlled by this set are released"},
 				[]string{"adopt patch", "release patch", "status written after claiming"}),
+			syncRun("status-conflict", []int{1, 1, 0, yStatusConflict | yHealthDims, nC10}, []int{2, 2, 1, yStatusConflict | yHealthDims, nC10},
+				[]string{"pods that are not members are not counted"},
+				[]string{"fault injected at set.updateStatus"}),
 			syncRun("revisions", []int{1, 1, 0, yRevDims | yOrphanRevs | yStaleCache, nC10}, []int{1, 1, 0, yRevDims | yOrphanRevs | yStaleCache | yDeleting, nC10},
 				[]string{"revisions controlled by another owner are never written"},
 				[]string{"write on a listed revision"}),
@@ -226,6 +237,12 @@ func init() {
 				Asserts: []string{"an unchanged template writes no revision", "a rollback renumbers the old revision instead of creating one", "a new template creates a revision",
 					"status.updateRevision names a stored revision of the current template", "a colliding revision of different data is never overwritten", "a non-template edit keeps the update revision"},
 				Covers: []string{"template unchanged", "rollback to an older revision", "new template", "engineered name collision", "colliding revision carries the same hash label", "non-template edit reconciled"}},
+			{Name: "revisions-small-history-limit", Pkg: pkgCtl, Func: "VH_Revisions", Quick: []int{2, 6}, Thorough: []int{3, 6},
+				Bounds: func(a []int) string {
+					return fmt.Sprintf("as above with revisionHistoryLimit in {0,1}: %d stored revisions, so that history trimming runs in the same reconcile that creates, re-uses or renumbers the update revision", a[0])
+				},
+				Asserts: []string{"status.updateRevision names a stored revision", "a non-template edit keeps the update revision"},
+				Covers:  []string{"rollback to an older revision", "new template"}},
 		},
 		Stubs: ctlStubs,
 		Assumptions: []string{
